@@ -30,7 +30,139 @@ def index_field(F):
     return c[0] if len(c) == 1 else None
 
 
+def handover_rule(ctx, F):
+    """C14.handover: the iterator is given the reader's index exactly when the reader has one"""
+    ctx.rule("C14.handover", "iter_shapes_as hands the reader's index to the iterator exactly when there is one: on every path the "
+                             "iterator's index field is None iff the reader's is, and otherwise iterates that very vector from its "
+                             "first entry (no other test decides it)", floor=2)
+    fs = F.inherent_method("reader::ShapeReader", "iter_shapes_as")
+    fld = index_field(F)
+    radt = F.adts.get("reader::ShapeReader")
+    rf = [x["name"] for x in radt["variants"][0]["fields"] if x["ty"].startswith("std::option::Option<std::vec::Vec<")] if radt else []
+    if not fs or not fld or len(rf) != 1:
+        ctx.missing("C14.handover", "ShapeReader::iter_shapes_as / the index fields of reader and iterator")
+        return
+    site = ctx.site_of(F, fs[0]["def"])
+    src = ('load', (('T', ('param', 1)), (('f', rf[0]),)))
+    ps, _ = util.run_fn(F, fs[0], summarise_pure=False)
+    n = 0
+    for p in ps:
+        if p.status != 'return' or not is_agg(p.ret):
+            continue
+        v = agg_field(p.ret, fld)
+        have = None
+        for t, c in p.cons:
+            if t == ('discr', src):
+                have = (c == 1)
+        if is_agg(v, None, 'None'):
+            ok, what = have is False, "no index handed over"
+        elif is_agg(v, None, 'Some'):
+            it = agg_field(v, '0')
+            whole = it[0] == 'iter' and absint.term_str(it[1]).replace(' ', '') in (
+                absint.term_str(('load', (('T', ('param', 1)), (('f', rf[0]), ('v', 'Some'), ('f', '0'))))).replace(' ', ''),)
+            ok, what = have is True and whole, "hands over %s" % absint.term_str(it)[:60]
+        else:
+            ok, what = False, "the iterator's index is %s" % absint.term_str(v)[:60]
+        n += 1
+        ctx.ob("C14.handover", "path %d (%s)" % (n, "index present" if have else "no index" if have is False else "presence not tested"),
+               ok, what + ("" if ok else " — whether the iterator follows the index is decided by something other than the presence of "
+                                         "the reader's index (%s)" % [absint.term_str(t)[:50] for t, c in p.cons if t[0] == 'discr'][:2]),
+               site=site, key="C14.handover|%s|%s" % (have, is_agg(v, None, 'Some')))
+
+
+def _ev(t, env):
+    from .C03 import _ev as ev
+    return ev(t, env)
+
+
+def accept_rule(ctx, F):
+    """C14.accept: random access and the indexed iteration refuse no entry of a valid index.  Valid: the record starts at or
+    after byte 100 and its 8-byte header plus content (at least the 4-byte type code) ends at or before the declared end."""
+    ctx.rule("C14.accept", "positional access (seek, read_nth_shape_as) and the indexed iteration return an error of their own "
+                           "only for an index entry no valid file has: on every such path the tests on the entry's offset, its "
+                           "length and the declared file length are unsatisfiable for sample triples with offset >= 50 words, "
+                           "length >= 2 words and offset + 4 + length <= file length (equality included)", floor=2)
+    off_name, len_name = util.index_entry_fields(F) or (None, None)
+    targets = [f for n_ in ("seek", "read_nth_shape_as") for f in (F.inherent_method("reader::ShapeReader", n_) or [])[:1]]
+    nx = iterator_next(F)
+    if nx:
+        targets.append(nx)
+    if not off_name or len(targets) < 3:
+        ctx.missing("C14.accept", "index entry fields / seek, read_nth_shape_as, ShapeIterator::next")
+        return
+    samples = [(50, 56, 2), (50, 60, 6), (50, 64, 10), (56, 62, 2), (1000, 1006, 2), (1000, 5000, 100),
+               (50, 2 ** 31 - 1, 10), (2 ** 30 - 7, 2 ** 30 - 1, 2)]
+
+    def role(t):
+        if isinstance(t, tuple) and t and t[0] in ('load', 'proj') :
+            path = t[1][1] if t[0] == 'load' else t[2]
+            last = [e for e in path if isinstance(e, tuple) and e and e[0] == 'f']
+            if last:
+                nm = last[-1][1]
+                return 'off' if nm == off_name else 'len' if nm == len_name else 'fl' if nm == 'file_length' else None
+        return None
+
+    for g in targets:
+        site = ctx.site_of(F, g["def"])
+        try:
+            ps, _ = util.run_fn(F, g, summarise_pure=False,
+                                inline=lambda g2, t: not mir.callee_decl(t).endswith(("::read_from", "read_one_shape_as")))
+        except absint.Unanalysable as e:
+            ctx.unanalysable("C14.accept", g["def"], str(e))
+            continue
+        refused, undecided, npaths = None, 0, 0
+        for p in ps:
+            r = p.ret
+            if p.status != 'return':
+                continue
+            e = agg_field(r, '0') if is_agg(r, None, 'Err') else (agg_field(agg_field(r, '0'), '0') if is_agg(r, None, 'Some') and
+                                                                 is_agg(agg_field(r, '0'), None, 'Err') else None)
+            if e is None or e[0] in ('err', 'from') or (e[0] == 'from' ):
+                continue                          # not an error, or one handed on from the source / the record reader
+            if not (is_agg(e) or e[0] in ('ret', 'app')):
+                continue
+            syms = {}
+            for t, c in p.cons:
+                for x in absint.subterms(t):
+                    rl = role(x)
+                    if rl:
+                        syms[x] = rl
+            atoms = [(t, c) for t, c in p.cons if any(x in syms for x in absint.subterms(t))]
+            if not atoms:
+                continue
+            npaths += 1
+            for off, fl, ln in samples:
+                env = {x: {'off': off, 'fl': fl, 'len': ln}[rl] for x, rl in syms.items()}
+                ok = True
+                for t, c in atoms:
+                    x = _ev(t, env)
+                    if x is None:
+                        ok = None
+                        break
+                    want = (x == c) if isinstance(c, int) else (x not in c[1]) if isinstance(c, tuple) and c and c[0] == 'not' else None
+                    if want is None:
+                        ok = None
+                        break
+                    if not want:
+                        ok = False
+                        break
+                if ok is None:
+                    undecided += 1
+                    break
+                if ok and refused is None:
+                    refused = (off, fl, ln)
+        ctx.ob("C14.accept", g["def"].split("::")[-1], refused is None,
+               "%d error path(s) of its own test the entry; none is taken for a valid entry (%d not evaluable)" % (npaths, undecided)
+               if refused is None else
+               "a valid entry is refused: offset %d words, content length %d words, declared file length %d words (the record ends "
+               "%s the declared end)" % (refused[0], refused[2], refused[1],
+                                         "exactly at" if refused[0] + 4 + refused[2] == refused[1] else "before"),
+               site=site, key="C14.accept|%s" % g["def"].split("::")[-1])
+
+
 def run(ctx):
+    handover_rule(ctx, ctx.facts("default"))
+    accept_rule(ctx, ctx.facts("default"))
     _run(ctx)
     ctx.delegate("C04", ["C04.agree"], "C14.index", "the index the iteration follows holds every entry of the .shx, in order", floor=2)
     ctx.delegate("C03", ["C03.stop"], "C14.counter",
